@@ -119,7 +119,9 @@ func (q *seqRun) noteRejected(o *Op, v verdict) {
 		q.stats["adds_rejected_at_output_2plus"]++
 	}
 	if o.Ctor != "nil" && !strings.HasPrefix(o.Ctor, "inst:") {
-		q.rejected[pool.ByName(o.Ctor).ID] = v.form + ":rejected-at-" + outClass(v.rejectAt)
+		id := pool.ByName(o.Ctor).ID
+		q.rejected[id] = v.form + ":rejected-at-" + outClass(v.rejectAt)
+		delete(q.removed, id) // the latest event explains a later run of the constructor
 	}
 }
 
@@ -171,7 +173,7 @@ func (q *seqRun) execute(o *Op, stepNo int) (j judged) {
 		err := q.e.applyDirect(q.c, o)
 		// C17 only uses module calls whose result does not depend on module semantics (C20's
 		// subject): the entries commute (distinct identities and groups, a Remove entry of a
-		// type no entry adds) and an entry the statement rejects only ever travels alone,
+		// type no entry adds) and an entry the statement rejects only ever travels alone.
 		// Only the nil-ness of the returned error is judged here.
 		cur := q.s.Clone()
 		j.class, j.viaModules = "add", true
@@ -278,6 +280,7 @@ func (q *seqRun) step(o *Op, stepNo int) []finding {
 		for _, r := range rs {
 			if r.ctor >= 0 && !alive[r.ctor] {
 				q.removed[r.ctor] = j.class + ":" + r.life
+				delete(q.rejected, r.ctor)
 			}
 		}
 	}
@@ -595,6 +598,7 @@ func smallAlphabet() []*Op {
 		}},
 		{Kind: "build"},
 		add("singleton", "inst:K0#1", "name=k2"),
+		add("scoped", "Leaf_K1_c", "as=IA", "as=IK0"), // K1 does not implement IK0: rejected at alias 2
 	}
 }
 
@@ -605,7 +609,7 @@ func init() {
 		Rule: "cases are sequences of AddSingleton/AddScoped/AddTransient (plain, Name, Group, As, instance values, multi-return and Out-struct constructors, duplicates, nil constructor, Name+Group, As mismatch), " +
 			"Remove, RemoveKeyed, AddModules, Build and further edits after Build over 4 service types x keys {k,k2} x groups {g,h}; after EVERY step Contains/ContainsKeyed/Count/ToSlice are compared with a reference registry, " +
 			"a provider is built and every identity of the universe is resolved from a fresh scope (which constructors ran, which constructor produced each identity, group order), and every provider retained from an earlier Build step is re-queried. " +
-			"Exhaustive part: all sequences of length <=3 (quick) / <=4 (thorough) over a 14-op alphabet; random part: seeded state-aware sequences of length 20. " +
+			"Exhaustive part: all sequences of length <=3 (quick) / <=4 (thorough) over a 15-op alphabet; random part: seeded state-aware sequences of length 20. " +
 			"A case is non-trivial when it has an accepted registration and at least one rejected registration, effective removal or edit after Build; distinct = distinct op sequences.",
 		Shards: func(tier string) int { return 16 },
 		Run:    runC17,
